@@ -205,6 +205,8 @@ struct Repo {
     inner: CardanoTransactionRepository,
     /// provenance: a roll-back reached the repository for a slot below every stored block
     deep: AtomicBool,
+    /// provenance: a roll-back to the origin (slot 0) reached the repository while a block with slot 0 is stored
+    origin0: AtomicBool,
 }
 #[async_trait]
 impl ChainDataStore for Repo {
@@ -253,6 +255,11 @@ impl ChainDataStore for Repo {
             && self.inner.get_transaction_highest_chain_point().await?.is_some()
         {
             self.deep.store(true, Ordering::SeqCst);
+        }
+        if slot_number == SlotNumber(0)
+            && self.inner.get_closest_block_number_above_slot_number(slot_number).await?.is_some()
+        {
+            self.origin0.store(true, Ordering::SeqCst);
         }
         self.inner
             .remove_rolled_back_blocks_transactions_and_block_range_by_slot_number(slot_number)
@@ -324,7 +331,7 @@ impl Node {
             .with_options(&[ConnectionOptions::EnableForeignKeys, ConnectionOptions::EnableWriteAheadLog])
             .build_pool(2)
             .expect("pool");
-        let repo = Arc::new(Repo { inner: CardanoTransactionRepository::new(Arc::new(pool)), deep: AtomicBool::new(false) });
+        let repo = Arc::new(Repo { inner: CardanoTransactionRepository::new(Arc::new(pool)), deep: AtomicBool::new(false), origin0: AtomicBool::new(false) });
         let server = Arc::new(StdMutex::new(Server::new(chain)));
         let importer = Self::mk_importer(&repo, &server, max);
         Node { dir, repo, server, importer, max }
@@ -631,11 +638,42 @@ fn gen_history(rng: &mut Rng, thorough: bool, flavour: u64, partial_beacons: boo
     History { kind, max, c0, events, beacons, targets_below_tip }
 }
 
+/// Histories aimed at the class C13-origin-rollback-slot0: the first block of the chain sits at slot 0, the node
+/// imports some of it, the WHOLE chain is replaced (`Switch 0`), optionally the process restarts / the connection
+/// drops, and a further import polls: the follower is rolled back to the origin = slot 0.
+fn gen_slot0_history(rng: &mut Rng, variant: u64) -> History {
+    let mut g = Gen { rng, next_bh: 0, next_tx: 0 };
+    let max = *g.rng.pick(&[1usize, 2, 4, 100]);
+    let first_num = *g.rng.pick(&[0u64, 0, 1, 7]);
+    let n0 = g.rng.range(3, 12) as usize;
+    let mut c0 = g.blocks(None, first_num, n0, &mut vec![]);
+    c0[0].slot = 0;
+    let t1 = first_num + g.rng.range(1, n0 as u64 - 1);
+    let mut events = vec![Ev::Import(t1, vec![])];
+    let mut recycle: Vec<u64> = c0.iter().flat_map(|b| b.txs.clone()).collect();
+    let n_new = n0 + g.rng.range(1, 6) as usize;
+    let mut bs = g.blocks(None, first_num, n_new, &mut recycle);
+    if g.rng.chance(1, 2) {
+        // the silent variant: the replacing first block brings no transaction, nothing fails
+        bs[0].txs.clear();
+    }
+    events.push(Ev::Mut(Switch { keep: 0, bs }));
+    match variant % 3 {
+        0 => events.push(Ev::Restart),
+        1 => events.push(Ev::Disconnect),
+        _ => {}
+    }
+    let t2 = first_num + g.rng.range(t1 - first_num + 1, n_new as u64 - 1);
+    events.push(Ev::Import(t2, vec![]));
+    History { kind: "origin-slot0".into(), max, c0, events, beacons: vec![], targets_below_tip: true }
+}
+
 struct Outcome {
     /// the canonical chain changed after the last import (premise of the property not met)
     late_mutation: bool,
     oks: Vec<bool>,
     deep: bool,
+    origin0: bool,
     stale: bool,
     echo: bool,
     tables: Tables,
@@ -706,7 +744,8 @@ async fn run_history(h: &History, work: &PathBuf, id: u64) -> Outcome {
         None => None,
     };
     let (deep, echo) = (node.repo.deep.load(Ordering::SeqCst), node.server.lock().unwrap().echo_confusion);
-    Outcome { late_mutation, oks, deep, stale, echo, tables, final_chain, sig, scratch_tables, last_target }
+    let origin0 = node.repo.origin0.load(Ordering::SeqCst);
+    Outcome { late_mutation, oks, deep, origin0, stale, echo, tables, final_chain, sig, scratch_tables, last_target }
 }
 
 fn eq_pattern(items: &[String]) -> Vec<u64> {
@@ -739,11 +778,65 @@ fn main() {
     std::fs::create_dir_all(&work).unwrap();
     let rt = tokio::runtime::Builder::new_multi_thread().worker_threads(2).enable_all().build().unwrap();
 
+    // Probe mode, NOT part of the check (`C13_PROBE=1 c13 --seed 1 --tier quick --out /dev/null`): runs on the
+    // real importer the two hand-written histories of coq/C13/Refuted.v C13_hyp_needed_* (chains the
+    // generator never produces: a block at slot 0, a gap in the block numbers) and prints what happened.
+    if std::env::var("C13_PROBE").is_ok() {
+        let b = |num: u64, slot: u64, bh: u64, txs: &[u64]| Blk { num, slot, bh, txs: txs.to_vec() };
+        let probes = vec![
+            (
+                "slot0",
+                History {
+                    kind: "probe".into(),
+                    max: 4,
+                    c0: vec![b(0, 0, 1, &[]), b(1, 5, 2, &[10])],
+                    events: vec![
+                        Ev::Import(1, vec![]),
+                        Ev::Mut(Switch { keep: 0, bs: vec![b(0, 3, 3, &[]), b(1, 6, 4, &[11]), b(2, 8, 5, &[])] }),
+                        Ev::Restart,
+                        Ev::Import(2, vec![]),
+                    ],
+                    beacons: vec![],
+                    targets_below_tip: true,
+                },
+            ),
+            (
+                "gap",
+                History {
+                    kind: "probe".into(),
+                    max: 4,
+                    c0: vec![b(5, 10, 1, &[]), b(7, 20, 2, &[10])],
+                    events: vec![Ev::Import(6, vec![]), Ev::Import(7, vec![])],
+                    beacons: vec![],
+                    targets_below_tip: true,
+                },
+            ),
+        ];
+        for (k, (name, h)) in probes.iter().enumerate() {
+            let o = rt.block_on(run_history(h, &work, 900_000 + k as u64));
+            eprintln!(
+                "PROBE {}: oks={:?} deep={} stale={} echo={} stored_bh={:?} scratch_bh={:?}",
+                name,
+                o.oks,
+                o.deep,
+                o.stale,
+                o.echo,
+                o.tables.blocks.iter().map(|x| x.bh).collect::<Vec<_>>(),
+                o.scratch_tables.as_ref().map(|t| t.blocks.iter().map(|x| x.bh).collect::<Vec<_>>())
+            );
+        }
+        let _ = std::fs::remove_dir_all(&work);
+        return;
+    }
+
     let n_cases = if args.thorough { 600 } else { 130 };
-    for i in 0..n_cases {
+    // after the random flavours: a few histories aimed at the origin / slot-0 class (appended, so the
+    // random cases keep their seeds)
+    let n_slot0 = if args.thorough { 12 } else { 4 };
+    for i in 0..n_cases + n_slot0 {
         let flavour = [0u64, 1, 1, 2, 2, 3, 4, 4][(i % 8) as usize];
         let mut sub = rng.fork();
-        let h = gen_history(&mut sub, args.thorough, flavour, i % 5 == 4);
+        let h = if i < n_cases { gen_history(&mut sub, args.thorough, flavour, i % 5 == 4) } else { gen_slot0_history(&mut sub, i) };
         let Some(id) = sink.wants() else { continue };
         let o = rt.block_on(run_history(&h, &work, id));
 
@@ -790,6 +883,8 @@ fn main() {
         let known = if holds == Some(false) {
             if o.deep {
                 Some("C13-deep-rollback".to_string())
+            } else if o.origin0 {
+                Some("C13-origin-rollback-slot0".to_string())
             } else if o.echo {
                 Some("C13-echo-rollback".to_string())
             } else if o.stale {
